@@ -290,9 +290,13 @@ class Interp:
         if isinstance(st, ast.Assert):
             return None
         if isinstance(st, ast.Try):
-            # the normal path; handlers are not modelled
+            # the normal path; a handler is followed only when the configuration hook selects it
             sig = self.block(st.body, env, mod)
-            if sig is None:
+            hsel = self.hooks.try_handler(self, st, env, mod)
+            if hsel is not None and sig is None and hsel < len(st.handlers):
+                self.assumed.append((mod.path, st.lineno, 'try: handler %d taken' % hsel, True, 'configuration'))
+                sig = self.block(st.handlers[hsel].body, env, mod)
+            elif sig is None:
                 sig = self.block(st.orelse, env, mod)
             if sig is None and st.finalbody:
                 sig = self.block(st.finalbody, env, mod)
@@ -494,19 +498,25 @@ class Interp:
             o = self.expr(node.value, env, mod)
             if isinstance(o, Obj):
                 key = node.attr
+                priv = '_' + key
+                if o.cls is not None:
+                    st = self.repo.find_setter(o.cls, key)
+                    if st is not None:
+                        priv = setter_private_attr(st) or priv
+
                 def getter():
                     if key in o.attrs:
                         return o.attrs[key]
-                    if ('_' + key) in o.attrs:
-                        return o.attrs['_' + key]
+                    if priv in o.attrs:
+                        return o.attrs[priv]
                     return self.getattr(o, key, node, mod)
 
                 def setter(v):
-                    # an in-place store does not go through the property setter
-                    if key in o.attrs or ('_' + key) not in o.attrs:
+                    # an in-place store does not go through the property setter: it updates the stored array
+                    if key in o.attrs or priv not in o.attrs:
                         o.attrs[key] = v
                     else:
-                        o.attrs['_' + key] = v
+                        o.attrs[priv] = v
                 return getter, setter
         return None
 
@@ -542,7 +552,7 @@ class Interp:
             return
         cond = Poly.const(1)
         cur_dims = list(old.dims)
-        removed = []      # labels fixed by pinned indices
+        shifts = []       # (label, k): value stored at running index + k
         for sub in reversed(chain_nodes):
             idx = sub.slice.elts if isinstance(sub.slice, ast.Tuple) else [sub.slice]
             ax = 0
@@ -583,6 +593,12 @@ class Interp:
                     cond = cond * v.poly
                     for k in range(v.ndim):
                         new_dims.append(cur_dims[ax]); ax += 1
+                elif isinstance(v, Arr) and v.ndim == 0 and lab is not None and _index_offset(v.poly, lab) is not None:
+                    # A[i + k] = f(i)  for the running index i of this axis:  A[j] = f(j - k)
+                    k = _index_offset(v.poly, lab)
+                    shift_store = -k
+                    shifts.append((lab, shift_store))
+                    ax += 1
                 elif isinstance(v, int) and not isinstance(v, bool):
                     self.positional.append((lab, v, mod.path, sub.lineno))
                     if lab is not None and self._in_generic_loop_over(lab, env):
@@ -613,6 +629,9 @@ class Interp:
             setv(Unk('label clash', t, definite=True))
             return
         vp = v.poly
+        for lab, k in shifts:
+            vp = alg.shift_index(vp, lab, k)
+            cond = alg.shift_index(cond, lab, k)
         if old.unit is not None and v.unit is not None and not (old.unit == v.unit) and not (vp.is_const()):
             pass    # astropy converts on assignment; value semantics unchanged
         newp = old.poly + cond * (vp - old.poly)
@@ -1488,6 +1507,9 @@ class Interp:
                 if not args:
                     return Unk('.to()', e)
                 uu = self._as_arr(args[0])
+                if isinstance(uu, Arr) and recv.ndim == 0 and recv.unit is not None and recv.poly == recv.unit and not recv.poly.is_const():
+                    # unit.to(other_unit): the dimensionless conversion factor
+                    return Arr((), recv.poly * uu.poly.pow(-1), unit=num(1))
                 if isinstance(uu, Unk):
                     return recv.with_(unit=None)
                 return recv.with_(unit=uu.poly)       # same physical quantity, expressed in unit uu
@@ -1602,6 +1624,10 @@ class Hooks:
     def opaque(self, interp, fi, args, kwargs, node):
         """Summarise a repo function instead of inlining it (return NotImplemented to inline)."""
         return NotImplemented
+
+    def try_handler(self, interp, st, env, mod):
+        """Index of the except handler to follow after the try body, or None for the normal path."""
+        return None
 
     def external(self, interp, name, args, kwargs, node, mod):
         return NotImplemented
@@ -1748,6 +1774,14 @@ def _len_label(p):
         (m, c), = p.t.items()
         if c == 1 and len(m) == 1 and m[0][1] == 1 and m[0][0][0] == 'fn' and m[0][0][1] == 'len':
             return m[0][0][2][1]
+    return None
+
+
+def _index_offset(p, lab):
+    """if p == idx:lab + k (k a non-zero integer constant) return k"""
+    rest = p - Poly.atom(('sym', 'idx:' + str(lab), (lab,)))
+    if rest.is_const() and rest.const_value().denominator == 1 and rest.const_value() != 0:
+        return int(rest.const_value())
     return None
 
 
